@@ -92,8 +92,8 @@ impl Property for C07 {
     }
     fn phases(&self, tier: Tier) -> Vec<Phase> {
         match tier {
-            Tier::Quick => vec![Phase::new("schedules", 150, Profile::Release)],
-            Tier::Thorough => vec![Phase::new("schedules", 6_000, Profile::Release)],
+            Tier::Quick => vec![Phase::new("schedules", 150, Profile::Release).budget(240_000)],
+            Tier::Thorough => vec![Phase::new("schedules", 6_000, Profile::Release).budget(240_000)],
         }
     }
     fn required_features(&self, _tier: Tier) -> Vec<String> {
